@@ -35,6 +35,7 @@ RACE_FINDINGS = {
         "lib/statisticsPusher/statistics.NewStoreQuery",
         "lib/errno.needStack",
         "lib/scheduler.(*TaskGroup).Add.func1",
+        "lib/statisticsPusher/statistics.(*MergeStatistics).SetCurrentOutOfOrderFile",   # gauge written by every merger goroutine
         "engine/index/tsi.(*tsIndexImpl).run.func1",
     ],
     "C04-race-merge-and-compaction-iterators": [
@@ -566,7 +567,15 @@ def eng_level(ck, binp, only=None):
                 got = [int(bool(obs.get("offloading_after_timeout"))), int(bool(obs.get("ref_after_timeout_ok"))), 1, 1,
                        1 if obs.get("query_err") == "<nil> <nil>" and obs.get("drop_err") not in (None, "<nil>") else 0]
                 want = model["timeout"]
-            if got == want:
+            if (p["op"] == "wait" and (obs.get("refs_while_query") or 0) >= 1
+                    and (obs.get("drop_waits_at") == "done" or obs.get("dir_present_while_waiting") is False)):
+                # DIRECT ORACLE: the drop went ahead although an operation in flight held its partition reference
+                ck.violation({"kind": "engine-drop-under-reference",
+                              "what": "DeleteDatabase %s while a query in flight held a partition reference (exeCount %s): "
+                                      "observed %s" % ("finished" if obs.get("drop_waits_at") == "done" else "deleted the partition directory",
+                                                       obs.get("refs_while_query"), json.dumps(obs)[:1500]),
+                              "probe": p})
+            elif got == want:
                 n_ok += 1
             else:
                 mism.append((p, o, "drain probe: the model says %s, the engine shows %s" % (want, got)))
@@ -713,8 +722,13 @@ def main(ck):
     # ---------------------------------------------------------------- (b) free-running stress under the race detector
     rounds, ms = (30, 20000) if thorough else (2, 8000)
     racelog = os.path.join(ck.work, "race")
-    rc, out = ck.run([bin_race, "stress", str(rounds), str(ms)], timeout=rounds * (ms / 1000.0 + 150) + 300,
-                     env={"GORACE": "halt_on_error=0 log_path=%s" % racelog})
+    senv = {"GORACE": "halt_on_error=0 log_path=%s" % racelog}
+    if ck.cov.get("engine_variant") == "current" and ck.match_finding(REENTRY):
+        # the tree is known (re-entry probe above) to deadlock when a WriteToRaft partition lookup meets Engine.Close:
+        # leave the lookups out of the engine rounds so that the rounds are not aborted by the known defect
+        senv["C04_SKIP_RAFT_LOOKUPS"] = "1"
+        ck.notes.append("stress: WriteToRaft partition lookups left out of the engine rounds (known open finding %s)" % REENTRY)
+    rc, out = ck.run([bin_race, "stress", str(rounds), str(ms)], timeout=rounds * (ms / 1000.0 + 150) + 600, env=senv)
     srounds = [json.loads(l) for l in out.splitlines() if l.startswith('{"kind":"stress"')]
     finished = any(l.startswith("{") and '"kind":"done"' in l for l in out.splitlines())
     if not finished or len(srounds) != rounds:
@@ -734,6 +748,11 @@ def main(ck):
         for f in o["failures"]:
             if f["kind"] in LOST_KINDS and f.get("sig") == "ooo-row" and o.get("n_in_order_lost", 0) == 0 and ck.match_finding(ORPHAN):
                 lost_known += 1
+                continue
+            if (f["kind"] in ("close-deadlock", "post-close-hang") and ck.match_finding(REENTRY)
+                    and re.search(r"sync\.\(\*RWMutex\)\.RLock\([^\n]*\n[^\n]*\n[^\n]*\(\*EngineImpl\)\.unrefDBPT\([^\n]*\n[^\n]*\n[^\n]*\(\*EngineImpl\)\.checkAndGetDBPTInfo\(", f["detail"])):
+                ck.known_finding(REENTRY, "stress (engine round, finale %s): a WriteToRaft partition lookup waits in EngineImpl.unrefDBPT for "
+                                          "EngineImpl.mu.RLock under its own read lock while the finale waits for the write lock" % o["cfg"].get("fin"))
                 continue
             ck.violation({"kind": "stress-direct-oracle", "what": f["kind"] + ": " + f["detail"][:3000], "cfg": o["cfg"],
                           "failure": f, "round_totals": {k: o.get(k) for k in tot}})
@@ -762,7 +781,11 @@ def main(ck):
     reps = race_reports(rtxt)
     by = {}
     unknown = []
+    n_harness = 0
     for r in reps:
+        if r["a"][1] == "?" and r["b"][1] == "?":
+            n_harness += 1      # both accesses in harness code (bookkeeping of an abandoned round): not about the repository
+            continue
         fid = classify_race(r)
         if fid and ck.match_finding(fid):
             by.setdefault(fid, []).append(r)
@@ -781,7 +804,7 @@ def main(ck):
             break
         ck.violation({"kind": "data-race", "what": "race detector report outside every known signature: %s (%s) <-> %s (%s)"
                       % (r["a"][1], r["a"][2], r["b"][1], r["b"][2]), "report": r["text"]})
-    ck.cov["race_reports"] = {"total": len(reps), "known": {k: len(v) for k, v in by.items()}, "unknown": len(unknown)}
+    ck.cov["race_reports"] = {"total": len(reps), "known": {k: len(v) for k, v in by.items()}, "unknown": len(unknown), "harness_internal": n_harness}
     ck.cov["rule"] = ("forced schedules: model-guided (full enumeration of system A sampled, seeded random walks over the enabled "
                       "macro steps of systems B-E, plus the witness corpus); non-trivial = the schedule contains a write, a flush "
                       "step and a query; distinct = different (system, schedule). stress: queries checked by the direct oracle")
